@@ -36,7 +36,7 @@ FU = 'utils.func_utils'
 
 
 def run(ctx: Ctx):
-  for r in (r1, r2, r3, r4, r5, r6, r7, r8, r9, r10, r11, r12):
+  for r in (r1, r2, r3, r4, r5, r6, r7, r8, r9, r10, r11, r12, r13):
     ctx.guard(r)
 
 
@@ -151,10 +151,26 @@ def r2(ctx: Ctx):
     return isinstance(e, ast.Call) and unparse(e.func) == '_maybe_make' and (
         inner is None or unparse(e.args[0]) == inner)
   fnv = [k for k, vs in env.items() if any(mm(v, 'self.value') for v in vs)]
-  argv = [k for k, vs in env.items() if any(
-      isinstance(v, ast.Call) and unparse(v.func) == 'tuple' and isinstance(v.args[0], ast.GeneratorExp)
-      and mm(v.args[0].elt) and unparse(v.args[0].generators[0].iter) == 'self.args'
-      and unparse(v.args[0].elt.args[0]) == unparse(v.args[0].generators[0].target) for v in vs)]
+  def elementwise(v):
+    # every element of self.args through _maybe_make, in order: a comprehension / generator expression (optionally
+    # wrapped in tuple()/list()), or map(_maybe_make, self.args)
+    while isinstance(v, ast.Call) and unparse(v.func) in ('tuple', 'list') and len(v.args) == 1:
+      v = v.args[0]
+    if isinstance(v, (ast.GeneratorExp, ast.ListComp)):
+      return (len(v.generators) == 1 and not v.generators[0].ifs and mm(v.elt)
+              and unparse(v.generators[0].iter) == 'self.args'
+              and unparse(v.elt.args[0]) == unparse(v.generators[0].target))
+    return (isinstance(v, ast.Call) and unparse(v.func) == 'map' and len(v.args) == 2
+            and unparse(v.args[0]) == '_maybe_make' and unparse(v.args[1]) == 'self.args')
+  argv = [k for k, vs in env.items() if any(elementwise(v) for v in vs)]
+  for lp in walk_no_nested(fi.node):
+    # explicit loop: `for a in self.args: <name>.append(_maybe_make(a))`
+    if isinstance(lp, ast.For) and unparse(lp.iter) == 'self.args' and len(lp.body) == 1 and not lp.orelse:
+      b = lp.body[0]
+      if (isinstance(b, ast.Expr) and isinstance(b.value, ast.Call) and isinstance(b.value.func, ast.Attribute)
+          and b.value.func.attr == 'append' and isinstance(b.value.func.value, ast.Name)
+          and len(b.value.args) == 1 and mm(b.value.args[0], unparse(lp.target))):
+        argv.append(b.value.func.value.id)
   kwv = [k for k, vs in env.items() if any(
       isinstance(v, ast.DictComp) and mm(v.value) and unparse(v.generators[0].iter) == 'self.kwargs'
       and isinstance(v.generators[0].target, ast.Tuple)
@@ -755,11 +771,66 @@ def r12(ctx: Ctx):
   ctx.floor(rule, 1, n)
 
 
+def r13(ctx: Ctx):
+  rule = 'R-C17-13'
+  ctx.rule(rule, '"evaluates to what the eager expression would": an exception raised by a sub-expression reaches the caller as'
+           ' the exception the eager call raises. The interpreter rewrites a StopIteration raised INSIDE a generator into'
+           ' RuntimeError (PEP 479), so no materialisation call (_maybe_make / maybe_make / result_) of the lazy module sits'
+           ' in the element or a condition of a generator expression, or in the body of a generator function: a traced'
+           ' `f(next(it))` over an exhausted iterator must raise StopIteration as `f(next(it))` does, wherever the'
+           ' sub-expression stands')
+  mi = ctx.repo.module(LF)
+  n = 0
+  mk = {'_maybe_make', 'maybe_make', 'result_'}
+  for fi in [*mi.functions.values(), *(m for c in mi.classes.values() for m in c.methods.values())]:
+    pm = None
+    for c in walk_no_nested(fi.node):
+      if not (isinstance(c, ast.Call) and ((isinstance(c.func, ast.Name) and c.func.id in mk) or
+                                           (isinstance(c.func, ast.Attribute) and c.func.attr in mk))):
+        continue
+      n += 1
+      if pm is None:
+        pm = parent_map(fi.node)
+      bad = None
+      cur, child = pm.get(c), c
+      while cur is not None and cur is not fi.node:
+        if isinstance(cur, ast.GeneratorExp) and not (child is cur.generators[0] and _within(c, cur.generators[0].iter)):
+          bad = cur
+          break
+        child, cur = cur, pm.get(cur)
+      is_gen_fn = any(isinstance(y, (ast.Yield, ast.YieldFrom)) for y in walk_no_nested(fi.node))
+      what = f'{fi.qualname}: `{unparse(c)[:40]}` is evaluated outside any generator frame'
+      if bad is not None:
+        ctx.fail(rule, fi, what,
+                 f'`{unparse(bad)[:70]}` evaluates a lazy sub-expression inside a generator expression: a StopIteration raised'
+                 ' by that sub-expression is turned into RuntimeError("generator raised StopIteration"), where the eager call'
+                 ' raises StopIteration', node=bad)
+      elif is_gen_fn:
+        ctx.fail(rule, fi, what,
+                 f'{fi.qualname} is a generator function and materialises `{unparse(c)[:40]}` in its body: a StopIteration from'
+                 ' the sub-expression becomes RuntimeError', node=c)
+      else:
+        ctx.ok(rule, fi, what, c)
+  ctx.floor(rule, 4, n)
+
+
+def _within(node, root):
+  return any(y is node for y in ast.walk(root))
+
+
 from mlmverif.selfcheck import B, OK  # noqa: E402
 
 _L = 'chainables/lazy_fns.py'
 _F = 'utils/func_utils.py'
 VARIANTS = [
+    B('revert-args-materialised-in-generator-expression', 'chainables/lazy_fns.py',
+      "      args = [_maybe_make(arg) for arg in self.args]", "      args = tuple(_maybe_make(arg) for arg in self.args)", 'R-C17-13'),
+    B('kwargs-materialised-in-generator-expression', 'chainables/lazy_fns.py',
+      "      kwargs = {k: _maybe_make(v) for k, v in self.kwargs}", "      kwargs = dict((k, _maybe_make(v)) for k, v in self.kwargs)", 'R-C17-13'),
+    OK('args-materialised-in-explicit-loop', 'chainables/lazy_fns.py',
+       "      args = [_maybe_make(arg) for arg in self.args]", "      args = []\n      for arg in self.args:\n        args.append(_maybe_make(arg))"),
+    OK('args-materialised-by-map', 'chainables/lazy_fns.py',
+       "      args = [_maybe_make(arg) for arg in self.args]", "      args = tuple(map(_maybe_make, self.args))"),
     B('hash-fallback-structural', 'chainables/lazy_fns.py',
       "    except TypeError:\n      return hash(self.id)\n\n  def __eq__(self, other: Self):", "    except TypeError:\n      return hash((self.value, len(self.args)))\n\n  def __eq__(self, other: Self):", 'R-C17-12'),
     B('revert-lazy-object-eq-without-type-check', 'chainables/lazy_fns.py',
@@ -781,12 +852,12 @@ VARIANTS = [
     OK('wrapped-value-presence-inverted', 'chainables/lazy_fns.py',
        "    if self.value is None:\n      return f'LazyObject(id={self.id})'", "    if not (self.value is not None):\n      return f'LazyObject(id={self.id})'"),
     B('args-before-callee', _L,
-      '      fn = _maybe_make(self.value)\n      if not callable(fn):\n        raise TypeError(f\'fn is not callable from {self}.\')\n      args = tuple(_maybe_make(arg) for arg in self.args)\n      kwargs = {k: _maybe_make(v) for k, v in self.kwargs}',
-      '      args = tuple(_maybe_make(arg) for arg in self.args)\n      kwargs = {k: _maybe_make(v) for k, v in self.kwargs}\n      fn = _maybe_make(self.value)\n      if not callable(fn):\n        raise TypeError(f\'fn is not callable from {self}.\')',
+      '      fn = _maybe_make(self.value)\n      if not callable(fn):\n        raise TypeError(f\'fn is not callable from {self}.\')\n      args = [_maybe_make(arg) for arg in self.args]\n      kwargs = {k: _maybe_make(v) for k, v in self.kwargs}',
+      '      args = [_maybe_make(arg) for arg in self.args]\n      kwargs = {k: _maybe_make(v) for k, v in self.kwargs}\n      fn = _maybe_make(self.value)\n      if not callable(fn):\n        raise TypeError(f\'fn is not callable from {self}.\')',
       'R-C17-2'),
     B('kwargs-before-args', _L,
-      '      args = tuple(_maybe_make(arg) for arg in self.args)\n      kwargs = {k: _maybe_make(v) for k, v in self.kwargs}',
-      '      kwargs = {k: _maybe_make(v) for k, v in self.kwargs}\n      args = tuple(_maybe_make(arg) for arg in self.args)',
+      '      args = [_maybe_make(arg) for arg in self.args]\n      kwargs = {k: _maybe_make(v) for k, v in self.kwargs}',
+      '      kwargs = {k: _maybe_make(v) for k, v in self.kwargs}\n      args = [_maybe_make(arg) for arg in self.args]',
       'R-C17-2'),
     B('getattr-inherits-cache-flag', _L,
       '    return LazyFn.new(getattr, args=(self, name))',
